@@ -9,16 +9,9 @@ SUB, TRACE_SPEC = "store", "Trace_LogIndex"
 
 
 def build(ctx):
-    """ctx.build copies cmd/thor/sync_logdb.go of ctx.repo into the (shared) harness tree before compiling; a concurrent
-    check working on another tree may overwrite that copy. Make sure the driver was compiled from OUR copy."""
-    src = os.path.join(ctx.repo, "cmd/thor/sync_logdb.go")
-    dst = os.path.join(VERIF, "harness/internal/synclogdb/sync_logdb_copied.go")
-    want = re.sub(r"^package main", "package synclogdb", open(src).read(), count=1, flags=re.M)
-    for _ in range(5):
-        binp = ctx.build("logindex")
-        if open(dst).read().endswith(want):
-            return binp
-    raise Infra("internal/synclogdb/sync_logdb_copied.go keeps changing under the build (another check running on a different tree?)")
+    """ctx.build hands cmd/thor/sync_logdb.go of ctx.repo to the compiler through a per-run -overlay (verifkit), so the
+    driver is always compiled from OUR tree's copy; nothing to re-check here."""
+    return ctx.build("logindex")
 
 
 def record(ctx, scen, runs, blocks, queries, label, seed):
